@@ -3,7 +3,8 @@
 //! Direction 2 (document -> library): files produced by tla/Format.tla's encoder are loaded by the library.
 //! Direction 1 (library -> document): bytes produced by the library are handed to TLC (TraceFormat).
 
-use crate::bv::{self, Runs};
+use crate::bv::{self, AnyBv, Runs};
+use std::convert::TryFrom;
 use crate::common::*;
 use crate::layout::{to_bytes, to_elements};
 use crate::ser::Val;
@@ -206,9 +207,27 @@ pub fn record_format(seed: u64, thorough: bool, path: &str) -> Value {
             out.push(ev("sparse", &(sv), json!({"len": len, "ones": ones_json(bv::positions(runs))})));
             files += 1;
         }
-        let rv = bv::rl_runs(len, runs);
+        // the file of a run-length vector does not depend on how the builder was driven: per run, bit by bit, split runs that must
+        // merge, set_len before every run, empty runs and no-op set_len calls between the halves of a run (rotating)
+        let routes = ["runs", "split", "set_len_steps", "zero_runs", "bits"];
+        let route = if len > 5000 { "runs" } else { routes[files % routes.len()] };
+        let rv = match bv::build("rl", route, len, runs) { AnyBv::RL(v) => v, _ => unreachable!() };
         out.push(ev("rl", &(rv), json!({"len": len, "runs": bv::runs_json(runs)})));
         files += 1;
+    }
+    // plain bitvectors that are the result of a conversion: from a sparse vector, from a run-length vector, and from multisets
+    // (duplicates collapse into one bit: the number of set bits in the file is that of the bit sequence)
+    for (u, vals) in [(50usize, vec![3usize, 4, 4, 7, 11, 19]), (10, vec![0, 0, 0, 5, 5, 9, 9, 9, 9, 9, 9, 9]), (130, vec![64, 64, 65, 129, 129]), (200, (0..150).map(|i| (i * 4) / 3).collect())] {
+        let mut b = simple_sds::sparse_vector::SparseBuilder::multiset(u, vals.len());
+        for v in vals.iter() { b.set(*v); }
+        let ms = SparseVector::try_from(b).unwrap();
+        let mut distinct = vals.clone(); distinct.dedup();
+        for (k, bvec) in [BitVector::from(ms.clone()), BitVector::copy_bit_vec(&ms)].into_iter().enumerate() {
+            let mut bvec = bvec;
+            if k == 1 { bvec.enable_rank(); bvec.enable_select(); }
+            out.push(ev("bv", &bvec, json!({"len": u, "ones": distinct, "sup": [bvec.supports_rank(), bvec.supports_select(), bvec.supports_select_zero()]})));
+            files += 1;
+        }
     }
     // unbalanced bitvectors with every support structure: the numbers of ones- and zeros-superblocks differ
     for (len, step, all) in [(9000usize, 61usize, true), (9000, 1, false), (4097, 4096, true)] {
